@@ -30,7 +30,7 @@ def encMsg : Msg → List Nat
   | .chanAt ch v => [0xD0 + ch, v]
   | .bend ch l m => [0xE0 + ch, l, m]
   | .metaM ty d => 0xFF :: ty :: d.length :: d
-  | .sysex d => 0xF0 :: d.length :: d
+  | .sysex d => 0xF0 :: (encodeDelta d.length ++ d)
 
 /-- messages as the standard allows them and with the one-byte lengths the dump reads -/
 def WF : Msg → Prop
@@ -38,7 +38,7 @@ def WF : Msg → Prop
   | .prog ch p | .chanAt ch p => ch < 16 ∧ p < 128
   | .bend ch l m => ch < 16 ∧ l < 128 ∧ m < 128
   | .metaM ty d => ty < 128 ∧ d.length < 128 ∧ (ty = 0x51 → d.length = 3) ∧ (ty = 0x58 → 2 ≤ d.length)
-  | .sysex d => d.length < 128 ∧ ∃ body, d = body ++ [0xF7] ∧ 0xF7 ∉ body
+  | .sysex _ => True      -- any length (the field is a variable-length quantity), any data bytes, F7 included
 
 def payload (d : List Nat) : String :=
   match utf8Strict (d.length + 1) d with
@@ -52,9 +52,10 @@ def metaText (ty : Nat) (d : List Nat) : String :=
   else if ty = 0x58 then s!"TimeSig={d.getD 0 0}/{pow2w (d.getD 1 0)}"
   else metaNameOf ty d.length ++ "{" ++ payload d ++ "};"
 
-def sysexBody : List Nat → String
+def sysexJoin : List Nat → String
   | [] => ""
-  | x :: r => hex2U x ++ "," ++ sysexBody r
+  | [x] => hex2U x
+  | x :: y :: r => hex2U x ++ "," ++ sysexJoin (y :: r)
 
 /-- what the dump shows for a message: kind and values as written -/
 def textOf : Msg → String
@@ -66,7 +67,7 @@ def textOf : Msg → String
   | .chanAt ch v => s!"DirectSMF(${hex2 (0xD0 + ch)},${hex2 v}) // Channel after touch"
   | .bend _ l m => s!"PitchBend({((m * 128 + l : Nat) : Int) - 8192}) /* p{m} */"
   | .metaM ty d => metaText ty d
-  | .sysex d => "SysEx$=" ++ ("F0," ++ "/*len:" ++ hex2U d.length ++ "*/" ++ sysexBody d.dropLast ++ "F7") ++ ";"
+  | .sysex d => "SysEx$=" ++ ("F0," ++ "/*len:" ++ hexUp d.length ++ "*/" ++ sysexJoin d) ++ ";"
 
 /-- the reader state after a message -/
 def upd (info : Info) : Msg → Info
@@ -202,69 +203,48 @@ theorem eventStep_meta (pre rest : List Nat) (info : Info) (ty : Nat) (d : List 
       · simp only [t1, t2, t3, if_false, textOf, metaText, upd, readStr_payload]
 
 
-theorem sysexGo_body (body : List Nat) (hb : 0xF7 ∉ body) : ∀ (pre rest : List Nat) (f index : Nat) (m : String), 2 ≤ index → body.length + 1 ≤ f →
-    sysexGo (pre ++ (body ++ 0xF7 :: rest)) f pre.length index m = (m ++ sysexBody body ++ "F7", pre.length + body.length + 1) := by
-  induction body with
-  | nil =>
-    intro pre rest f index m hi hf
-    obtain ⟨g, rfl⟩ : ∃ g, f = g + 1 := ⟨f - 1, by omega⟩
-    have hlt : pre.length < (pre ++ ([] ++ 0xF7 :: rest)).length := by simp
-    have hx : byteAt (pre ++ ([] ++ 0xF7 :: rest)) pre.length = 0xF7 := by rw [byteAt_pre0]; simp
-    have hi1 : ¬ (index = 1) := by omega
-    rw [sysexGo]
-    have h7 : hex2U 247 = "F7" := by decide
-    simp only [hlt, if_true, hx, hi1, if_false, sysexBody]
-    simp [h7]
+theorem sysexData_enc (d : List Nat) : ∀ (pre rest : List Nat) (m : String),
+    sysexData (pre ++ (d ++ rest)) d.length pre.length m = (m ++ sysexJoin d, pre.length + d.length) := by
+  induction d with
+  | nil => intro pre rest m; simp [sysexData, sysexJoin]
   | cons x r ih =>
-    intro pre rest f index m hi hf
-    obtain ⟨g, rfl⟩ : ∃ g, f = g + 1 := ⟨f - 1, by simp at hf; omega⟩
-    have hx7 : x ≠ 0xF7 := fun h => hb (by simp [h])
-    have hr : 0xF7 ∉ r := fun h => hb (List.mem_cons_of_mem _ h)
-    have hlt : pre.length < (pre ++ (x :: r ++ 0xF7 :: rest)).length := by simp
-    have hx : byteAt (pre ++ (x :: r ++ 0xF7 :: rest)) pre.length = x := by rw [byteAt_pre0]; simp
-    have hi1 : ¬ (index = 1) := by omega
-    rw [sysexGo]
-    simp only [hlt, if_true, hx, hi1, if_false, hx7, ne_eq, not_false_eq_true]
-    have e : pre ++ (x :: r ++ 0xF7 :: rest) = (pre ++ [x]) ++ (r ++ 0xF7 :: rest) := by simp
+    intro pre rest m
+    have hlt : pre.length < (pre ++ (x :: r ++ rest)).length := by simp
+    have hx : byteAt (pre ++ (x :: r ++ rest)) pre.length = x := by rw [byteAt_pre0]; simp
+    have e : pre ++ (x :: r ++ rest) = (pre ++ [x]) ++ (r ++ rest) := by simp
     have hl : (pre ++ [x]).length = pre.length + 1 := by simp
-    rw [e, ← hl, ih hr (pre ++ [x]) rest g (index + 1) _ (by omega) (by simp at hf; omega)]
-    simp only [sysexBody, hl, List.length_cons, String.append_assoc]
-    congr 1
-    omega
+    simp only [List.length_cons, sysexData, hlt, if_true, hx]
+    rw [e, ← hl, ih (pre ++ [x]) rest]
+    cases r with
+    | nil => simp [sysexJoin]
+    | cons y r' =>
+      simp only [List.length_cons, Nat.add_one_ne_zero, if_false, sysexJoin, String.append_assoc, hl]
+      congr 1
+      omega
 
 
-theorem eventStep_sysex (pre rest : List Nat) (info : Info) (d : List Nat) (h : WF (.sysex d)) :
+theorem eventStep_sysex (pre rest : List Nat) (info : Info) (d : List Nat) (_h : WF (.sysex d)) :
     eventStep (pre ++ (encMsg (.sysex d) ++ rest)) pre.length info =
       (textOf (.sysex d), pre.length + (encMsg (.sysex d)).length, upd info (.sysex d)) := by
-  obtain ⟨hlen, body, rfl, hb⟩ := h
-  have e : pre ++ (encMsg (.sysex (body ++ [0xF7])) ++ rest) = pre ++ (0xF0 :: (body ++ [0xF7]).length :: (body ++ 0xF7 :: rest)) := by
+  have e : pre ++ (encMsg (.sysex d) ++ rest) = (pre ++ [0xF0]) ++ encodeDelta d.length ++ (d ++ rest) := by
     simp [encMsg]
-  rw [e]
-  generalize hL : (body ++ [0xF7]).length = L at *
-  have hL' : L = body.length + 1 := by rw [← hL]; simp
-  have h0 : byteAt (pre ++ (0xF0 :: L :: (body ++ 0xF7 :: rest))) pre.length = 0xF0 := by rw [byteAt_pre0]; simp
-  have h1 : byteAt (pre ++ (0xF0 :: L :: (body ++ 0xF7 :: rest))) (pre.length + 1) = L := by rw [byteAt_pre]; simp
-  have hlt0 : pre.length < (pre ++ (0xF0 :: L :: (body ++ 0xF7 :: rest))).length := by simp
-  have hlt1 : pre.length + 1 < (pre ++ (0xF0 :: L :: (body ++ 0xF7 :: rest))).length := by simp
-  have hF0 : hex2U 240 = "F0" := by decide
-  have hL7 : ¬ (L = 0xF7) := by omega
+  have h0 : byteAt (pre ++ (encMsg (.sysex d) ++ rest)) pre.length = 0xF0 := by rw [byteAt_pre0]; simp [encMsg]
+  have hl1 : (pre ++ [0xF0]).length = pre.length + 1 := by simp
   simp only [eventStep, h0, show (0xF0 : Nat) / 16 * 16 = 0xF0 by decide]
   simp (config := { decide := true }) only [if_false, if_true, metaStep, h0]
-  obtain ⟨g, hg⟩ : ∃ g, (pre ++ (0xF0 :: L :: (body ++ 0xF7 :: rest))).length + 1 = g + 1 + 1 + 1 := ⟨pre.length + body.length + rest.length + 1, by simp; omega⟩
-  rw [hg, sysexGo]
-  simp (config := { decide := true }) only [hlt0, if_true, h0, if_false]
-  rw [sysexGo]
-  simp only [hlt1, if_true, h1, hL7, if_false]
-  have e2 : pre ++ (0xF0 :: L :: (body ++ 0xF7 :: rest)) = (pre ++ [0xF0, L]) ++ (body ++ 0xF7 :: rest) := by simp
-  have hl2 : (pre ++ [0xF0, L]).length = pre.length + 1 + 1 := by simp
-  rw [e2, ← hl2, sysexGo_body body hb (pre ++ [0xF0, L]) rest (g + 1) (0 + 1 + 1) _ (by omega) (by
-    have : (pre ++ (0xF0 :: L :: (body ++ 0xF7 :: rest))).length = pre.length + 2 + body.length + 1 + rest.length := by simp; omega
-    omega)]
-  simp only [textOf, upd, encMsg, hl2, hL, List.length_cons, hF0, List.dropLast_concat, String.append_assoc, String.empty_append]
+  have hrd := readDelta_inverts d.length (pre ++ [0xF0]) (d ++ rest) ((pre ++ (encMsg (.sysex d) ++ rest)).length)
+    (by rw [e]; simp only [List.length_append]; omega)
+  rw [← e, hl1] at hrd
+  rw [hrd]
+  simp only []
+  have e2 : pre ++ (encMsg (.sysex d) ++ rest) = (pre ++ [0xF0] ++ encodeDelta d.length) ++ (d ++ rest) := by
+    simp [encMsg]
+  have hl2 : (pre ++ [0xF0] ++ encodeDelta d.length).length = pre.length + 1 + (encodeDelta d.length).length := by
+    simp only [List.length_append, List.length_cons, List.length_nil]
+  rw [e2, ← hl2, sysexData_enc d (pre ++ [0xF0] ++ encodeDelta d.length) rest]
   refine Prod.ext ?_ (Prod.ext ?_ rfl)
-  · have hc : ("F0," : String) = "F0" ++ "," := by decide
-    simp only [hc, String.append_assoc]
-  · simp only; omega
+  · simp only [textOf, String.append_assoc]
+  · simp only [hl2, encMsg, List.length_cons, List.length_append]; omega
 
 
 theorem eventStep_enc (m : Msg) (h : WF m) (pre rest : List Nat) (info : Info) :
@@ -402,18 +382,15 @@ theorem readDelta_progress (b : List Nat) (f pos v : Nat) (h : pos < b.length) :
   · simp
   · exact readDelta_ge b f (pos + 1) _
 
-theorem sysexGo_ge (b : List Nat) : ∀ (f pos index : Nat) (m : String), pos ≤ (sysexGo b f pos index m).2 := by
-  intro f
-  induction f with
-  | zero => intro pos index m; simp [sysexGo]
-  | succ f ih =>
-    intro pos index m
-    rw [sysexGo]
+theorem sysexData_ge (b : List Nat) : ∀ (n pos : Nat) (m : String), pos ≤ (sysexData b n pos m).2 := by
+  intro n
+  induction n with
+  | zero => intro pos m; simp [sysexData]
+  | succ n ih =>
+    intro pos m
+    rw [sysexData]
     split
-    · simp only []
-      split
-      · simp
-      · exact Nat.le_trans (Nat.le_succ pos) (ih (pos + 1) _ _)
+    · exact Nat.le_trans (Nat.le_succ pos) (ih (pos + 1) _)
     · simp
 
 theorem metaStep_ge (b : List Nat) (p : Nat) (info : Info) : p ≤ (metaStep b p info).2.1 := by
@@ -428,7 +405,7 @@ theorem metaStep_ge (b : List Nat) (p : Nat) (info : Info) : p ≤ (metaStep b p
         · simp only []; omega
         · simp only []; omega
   · split
-    · exact sysexGo_ge b _ p 0 ""
+    · exact Nat.le_trans (Nat.le_trans (Nat.le_succ p) (readDelta_ge b _ (p + 1) 0)) (sysexData_ge b _ _ _)
     · simp
 
 theorem eventStep_ge (b : List Nat) (p : Nat) (info : Info) : p ≤ (eventStep b p info).2.1 := by
